@@ -354,7 +354,7 @@ impl IndexManager {
     }
 
     /// Read entry data block from the index file
-    fn read_entry_block(reader: &mut BufReader<File>) -> Result<Vec<u8>> {
+    fn read_entry_block(reader: &mut BufReader<File>, file_size: u64) -> Result<Vec<u8>> {
         // Skip header hash/padding (8 bytes)
         let mut hash_bytes = [0u8; 8];
         reader
@@ -371,8 +371,17 @@ impl IndexManager {
             entry_block.block_size, entry_block.block_hash
         );
 
-        // Read entry data (limited to block_size for safety)
+        // Read entry data (limited to block_size for safety). The block size
+        // comes from the file: make sure the file can hold it before allocating.
         let entry_data_size = entry_block.block_size as usize;
+        let data_start = reader
+            .stream_position()
+            .map_err(|e| StorageError::Index(format!("Failed to read entry data: {e}")))?;
+        if entry_data_size as u64 > file_size.saturating_sub(data_start) {
+            return Err(StorageError::Index(format!(
+                "Failed to read entry data: block size {entry_data_size} exceeds file size {file_size}"
+            )));
+        }
         let mut entry_data = vec![0u8; entry_data_size];
         reader
             .read_exact(&mut entry_data)
@@ -451,7 +460,7 @@ impl IndexManager {
         let (header, entry_size) = Self::read_index_header(&mut reader)?;
 
         // Read entry data block
-        let entry_data = Self::read_entry_block(&mut reader)?;
+        let entry_data = Self::read_entry_block(&mut reader, file_size)?;
 
         // Parse entries from raw data
         let mut entries = Self::parse_entries(&entry_data, &header, entry_size);
